@@ -134,6 +134,26 @@ fn run(rng: &mut Rng, idx: u64, tier: Tier) -> CaseOut {
             let shallow = hyb(*rng.pick(&[Hyb::Exists, Hyb::Bind]), "z", None, bin(Bin::And, g("z", &mut Rng::new(shape)), atom(rng)));
             if rng.coin() { bin(Bin::And, deep, shallow) } else { bin(Bin::Or, shallow, deep) }
         }
+        5 if extended => {
+            // a variable-free sub-formula with a complement-like operator, first inside a restricted scope (which does
+            // not mention it), then outside: the outside occurrence must not inherit anything from the scope
+            let (pa, pb) = (F::Prop(rng.pick(&world.net.names).clone()), F::Prop(rng.pick(&world.net.names).clone()));
+            let p = match rng.below(6) {
+                0 => un(Un::Not, pa),
+                1 => bin(Bin::Imp, pa, pb),
+                2 => un(Un::AG, F::True),
+                3 => un(Un::EX, un(Un::Not, pa)),
+                4 => un(Un::AX, pa),
+                _ => bin(Bin::Xor, pa, F::Wild("p".to_string())),
+            };
+            let inner = match rng.below(3) {
+                0 => hyb(Hyb::Jump, "x", None, p.clone()),
+                1 => bin(Bin::And, p.clone(), un(Un::EX, var("x"))),
+                _ => un(Un::EX, bin(Bin::And, p.clone(), var("x"))),
+            };
+            let scoped = hyb(*rng.pick(&[Hyb::Exists, Hyb::Bind, Hyb::Forall]), "x", Some(*rng.pick(&["d", "p"])), inner);
+            bin(*rng.pick(&[Bin::And, Bin::Or]), scoped, p)
+        }
         0 => atom(rng),
         1 => un(*rng.pick(&ALL_UN), atom(rng)),
         2 => bin(*rng.pick(&ALL_BIN), atom(rng), atom(rng)),
